@@ -235,7 +235,7 @@ PROPS = {
             'FairQueue::next yields ANY (peer, item) pair, logged (stand-in; the real queue is under contract in unit fairqueue): XPubSocket::recv returns the first message item verbatim and applies exactly that item (a clone with the same frames) to the sender\'s entry',
             'scc traversal (begin_async / next_async / OccupiedEntry Deref, DerefMut, key) is a stand-in cursor: it visits every key of the table exactly once in an order of its choosing, a change through the entry is a change of the table at that key, and the table afterwards is what the entries left (prophecy of the borrow). ASSUMED, sequential scope: nobody else touches the table during the traversal',
             '`subscriber.send_queue.as_mut().try_send(item)` is an assumed expression (Pin / TrySend over the external FramedWrite): one call hands exactly this item to exactly this writer, whatever the result; "delivered" below means handed to the connection\'s writer - whether the writer accepts or drops it at the high-water mark is C12',
-            '`e.kind() == ErrorKind::BrokenPipe` is an assumed pure test (std::io::Error is external)',
+            '`io::Error::kind()` is an assumed pure accessor (std::io::Error is external); ErrorKind itself, patterns and `==` on it are read as they are',
             '`entry.subscriptions.iter().position(|s| s == &sub)` in message_received is an assumed expression (first index with equal octets)',
             'ZmqMessage::clone is written out (derive dropped, D3) and verified to keep the frames',
             'send requires a message with at least one frame (an empty ZmqMessage makes `message.get(0).unwrap()` panic; ZmqMessage constructors never build one, split_off(0) can)',
